@@ -93,7 +93,7 @@ def expr_texts_conflict(srcs, sx):
 
 
 # ------------------------------------------------------------------ line-oriented form
-def line_form(body, style, indent_rng, prefix="#", cprefix="##"):
+def line_form(body, style, indent_rng, prefix="#", cprefix="##", multiline=False):
     """Print a statement list line by line.  style 'tags': {% %} tags and
     {# #} comments on their own lines; style 'line': line statements/comments."""
     lines = []
@@ -150,7 +150,12 @@ def line_form(body, style, indent_rng, prefix="#", cprefix="##"):
                 tag("endfor", ind)
             elif k == "set":
                 flush()
-                tag(f"set {st[1]} = {jast.pe(st[2])}", ind)
+                val = jast.pe(st[2])
+                if multiline and len(lines) % 3 == 0:
+                    # documented: a line statement may span lines while brackets are open
+                    tag(f"set {st[1]} = [{val},\n      {st[1]}|default(0)][\n  0]", ind)
+                else:
+                    tag(f"set {st[1]} = {val}", ind)
             elif k == "with":
                 flush()
                 tag("with " + ", ".join(f"{n} = {jast.pe(v)}" for n, v in st[1]), ind)
@@ -199,9 +204,12 @@ def check_lines(ctx, rng):
     if has_callstmt(body):
         return
     ind = [rng.choice([0, 0, 2, 4]) for _ in range(5)]
-    a_src = line_form(body, "tags", ind)
+    ml = rng.random() < 0.5
+    a_src = line_form(body, "tags", ind, multiline=ml)
     pfx, cpfx = rng.choice([("#", "##"), ("%%", "//"), ("@", "@@")])
-    b_src = line_form(body, "line", ind, pfx, cpfx)
+    b_src = line_form(body, "line", ind, pfx, cpfx, multiline=ml)
+    if ml:
+        ctx.count("linestatement_multiline_brackets")
     A = jinja2.Environment(trim_blocks=True, lstrip_blocks=True)
     B = jinja2.Environment(trim_blocks=True, lstrip_blocks=True, line_statement_prefix=pfx,
                            line_comment_prefix=cpfx)
@@ -216,12 +224,12 @@ def check_lines(ctx, rng):
         if has_comment:
             # delta: does the difference disappear without the whole-line comments?
             nb = _strip_comments(body)
-            a2 = util.capture(lambda: A.from_string(line_form(nb, "tags", ind)).render(**data))
-            b2 = util.capture(lambda: B.from_string(line_form(nb, "line", ind, pfx, cpfx)).render(**data))
+            a2 = util.capture(lambda: A.from_string(line_form(nb, "tags", ind, multiline=ml)).render(**data))
+            b2 = util.capture(lambda: B.from_string(line_form(nb, "line", ind, pfx, cpfx, multiline=ml)).render(**data))
             if same(a2, b2):
                 key = "linecomment:whole-line-comment-leaves-newline"
         ctx.violation(key, f"tags {a!r} vs line statements {b!r} | A={a_src!r} B={b_src!r}",
-                      {"kind": "lines", "body": body, "data": data, "indent": ind, "prefix": [pfx, cpfx]})
+                      {"kind": "lines", "body": body, "data": data, "indent": ind, "prefix": [pfx, cpfx], "ml": ml})
 
 
 def _flat(body):
@@ -394,7 +402,7 @@ def check_overlays(ctx, rng):
             return util.capture(f)
 
         want_base, want_ov = fresh({}), fresh(delta)
-        for order in ("base-first", "overlay-first"):
+        for order in ("base-first", "overlay-first", "base-first:used-base", "overlay-first:used-base"):
             def get(e):
                 def f():
                     try:
@@ -404,12 +412,24 @@ def check_overlays(ctx, rng):
                 return util.capture(f)
 
             base = jinja2.Environment(loader=jinja2.DictLoader({"t": src}))
+            if order.endswith("used-base"):
+                # the base environment has already lexed / compiled something when the overlay is made
+                base.from_string("{{ 1 }}").render()
+                list(base.lex("a {{ b }}"))
             ov = base.overlay(**delta)
-            if order == "base-first":
+            if order.startswith("base-first"):
                 b, o = get(base), get(ov)
             else:
                 o, b = get(ov), get(base)
             again_b, again_o = get(base), get(ov)
+            fs = util.capture(lambda: ov.from_string(src).render())
+            fs_want = util.capture(lambda: jinja2.Environment(**delta).from_string(src).render())
+            lx = util.capture(lambda: [(t[1], t[2]) for t in ov.lex(src)])
+            lx_want = util.capture(lambda: [(t[1], t[2]) for t in jinja2.Environment(**delta).lex(src)])
+            if not same(fs, fs_want) or not same(lx, lx_want):
+                ctx.violation("overlay:shares-state:lexer:" + name,
+                              f"{order}: overlay.from_string {fs!r} (want {fs_want!r}); overlay.lex {lx!r} (want {lx_want!r}) "
+                              f"for {src!r} with overlay options {delta}", {"kind": "overlaydim", "dim": name})
             ctx.ev(4)
             ctx.count("overlay_divergent_option_checks")
             if not (same(b, want_base) and same(o, want_ov) and same(again_b, want_base) and same(again_o, want_ov)):
@@ -491,8 +511,9 @@ def replay(ctx, case):
         pfx, cpfx = case["prefix"]
         A = jinja2.Environment(trim_blocks=True, lstrip_blocks=True)
         B = jinja2.Environment(trim_blocks=True, lstrip_blocks=True, line_statement_prefix=pfx, line_comment_prefix=cpfx)
-        a = util.capture(lambda: A.from_string(line_form(body, "tags", ind)).render(**data))
-        b = util.capture(lambda: B.from_string(line_form(body, "line", ind, pfx, cpfx)).render(**data))
+        ml = case.get("ml", False)
+        a = util.capture(lambda: A.from_string(line_form(body, "tags", ind, multiline=ml)).render(**data))
+        b = util.capture(lambda: B.from_string(line_form(body, "line", ind, pfx, cpfx, multiline=ml)).render(**data))
         if not same(a, b):
             ctx.violation("linestatement", f"{a!r} vs {b!r}", case)
     else:
